@@ -105,6 +105,31 @@ def run(chk):
                 detail[tid] = {'examples': empty if not isinstance(empty, dict) else empty, 'options': {k: x for k, x in kw2.items() if k != 'size'},
                                'size': sizekw, 'first': [], 'second': r['rex']}
                 tid += 1
+    # "repeating an example changes nothing", also next to the sampling thresholds: the number of DISTINCT strings lies
+    # between do_all_exceptions and do_all, while the number of strings supplied (with repeats) lies beyond do_all
+    from tdda.rexpy.rexpy import Size
+    for i in range(120 if thorough else 25):
+        shapes = [lambda: ''.join(rnd.choice('abcdefgh') for _ in range(rnd.randint(2, 3))), lambda: 'A-%d' % rnd.randint(0, 99),
+                  lambda: '%d.%d' % (rnd.randint(0, 9), rnd.randint(0, 9)), lambda: '#' + rnd.choice('xyz') * rnd.randint(1, 2)]
+        vals = []
+        while len(vals) < 12:
+            v_ = rnd.choice(shapes)()
+            if v_ not in vals:
+                vals.append(v_)
+        sizekw = {'do_all': 12, 'do_all_exceptions': rnd.choice([2, 3, 5]), 'max_sampled_attempts': rnd.randint(0, 2)}
+        kw = {'seed': rnd.randint(0, 9), 'size': Size(**sizekw)}
+        base, ok0 = call(list(vals), kw)
+        if base['raised'] != 'none':
+            continue
+        forms = [('twice', vals + vals), ('thrice', vals * 3), ('one repeated', vals + [vals[0]] * 20), ('dict of 2s', {v_: 2 for v_ in vals}),
+                 ('dict of 1s', {v_: 1 for v_ in vals})]
+        for label, v in forms:
+            r, ok2 = call(v, dict(kw, size=Size(**sizekw)))
+            events.append({'tid': tid, 'ev': 'Pair', 'kind': 'repeats', 'raised': 'none' if r['raised'] == 'none' else r['raised'].split(':')[0],
+                           'same': r['rex'] == base['rex'], 'seeded': True, 'prngsame': ok0 and ok2, 'sampling': False})
+            detail[tid] = {'examples': vals, 'form': label, 'options': {'seed': kw['seed']}, 'size': sizekw, 'first': base['rex'], 'second': r['rex']}
+            chk.count_case(('repeats', json.dumps(vals), label, json.dumps(sizekw)), nontrivial=True)
+            tid += 1
     # pandas Series form (pdextract: default options, optional seed): same expressions as the list of its values
     import pandas as pd
     from tdda.rexpy import pdextract, extract
